@@ -39,7 +39,10 @@ for _u, (_m, _ps) in VERUS_UNITS.items():
 
 # units that carry LABELLED clauses of further properties (only those clauses are charged to them; unlabelled failures of the
 # unit stay with its default properties)
-VERUS_ALSO = {"C09": ["chunk"], "C01": ["chunk"], "C14": ["misc"], "C16": ["evloop", "chunk"], "C17": ["evloop"]}
+VERUS_ALSO = {"C09": ["chunk"], "C01": ["chunk"], "C14": ["misc"], "C16": ["evloop", "chunk"], "C17": ["evloop"],
+              # every frame written / read goes through the partial-I/O loops of unit chunk (the units of these properties stub
+              # send_message* / recv_* by contracts whose proof ends there): see CHARGE_RULES
+              "C02": ["chunk"], "C03": ["chunk"], "C04": ["chunk"], "C05": ["chunk"], "C06": ["chunk"], "C18": ["chunk"]}
 for _p, _us in VERUS_ALSO.items():
     for _u in _us:
         if _u not in VERUS_FOR.setdefault(_p, []):
@@ -51,6 +54,11 @@ CHARGE_RULES = [
     # never returns, the daemon cannot accept a new connection)
     ("chunk", r'^recv_data$', r'decreases', ["C16"]),
     ("chunk", r'^recv_into_iovec_all$', r'decreases', ["C16"]),
+    # a broken byte-transfer loop breaks every property that speaks about what reaches the peer / the handler
+    ("chunk", r'^(send_iovec_all|get_sub_iovs_offset)$', r'.', ["C01", "C02", "C04", "C18"]),
+    ("chunk", r'^(recv_into_iovec_all|recv_into_iovec_real|get_sub_iovs_offset)$', r'.', ["C03", "C05", "C06", "C18"]),
+    # recv_data reads request BODIES in the two request servers (not replies): C04 prologue, C05 backend server, C18 frontend-side server
+    ("chunk", r'^recv_data$', r'.', ["C04", "C05", "C18"]),
 ]
 
 # Kani harnesses that serve further properties besides the one in their name
@@ -66,6 +74,9 @@ KANI_ALSO = {
     # whose proof goes through a written frame depends on them (fast: a few seconds each)
     "c08_send_message_frame": ["C01", "C02", "C03", "C04", "C18"], "c08_send_header_frame": ["C01", "C02", "C04"],
     "c08_send_message_with_payload_frame": ["C01", "C02", "C03", "C04"], "c08_send_message_with_payload_limits": ["C01", "C02", "C03", "C04"],
+    # ... and the receive stubs (recv_header / recv_body / recv_payload_into_buf) with `proved-by:` these
+    "c08_recv_header_classification": ["C04", "C05", "C18"], "c08_recv_body_classification": ["C03", "C06", "C18"],
+    "c08_recv_payload_into_buf_classification": ["C03", "C06"],
 }
 
 STANDING_ASSUMPTIONS = [
